@@ -234,6 +234,10 @@ static ares_status_t parse_nameserver_uri(ares_buf_t     *buf,
   sconfig->tcp_port = sconfig->udp_port;
   port              = ares_uri_get_query_key(uri, "tcpport");
   if (port != NULL) {
+    if (!ares_str_isnum(port) || ares_strlen(port) > 5 || atoi(port) > 65535) {
+      status = ARES_EBADSTR;
+      goto done;
+    }
     sconfig->tcp_port = (unsigned short)atoi(port);
   }
 
@@ -350,6 +354,11 @@ static ares_status_t parse_nameserver(ares_buf_t *buf, ares_sconfig_t *sconfig)
     status = ares_buf_tag_fetch_string(buf, portstr, sizeof(portstr));
     if (status != ARES_SUCCESS) {
       return status;
+    }
+
+    /* Up to 5 digits were read, which may still exceed a 16bit port */
+    if (atoi(portstr) > 65535) {
+      return ARES_EBADSTR;
     }
 
     sconfig->udp_port = (unsigned short)atoi(portstr);
